@@ -38,6 +38,15 @@ class P(framework.Prop):
                         if pre.startswith("["):
                             e = pre + call + "]"
                         out.append("search %s %s" % (wire.s(e), wire.val(d)))
+        # Display's location block for arbitrary (expression, line, column): the model of errors.rs's Display against the library
+        R = 400 if tier == "quick" else 20000
+        alphabet = ["a", "b", "\n", "\n", " ", "\u00e9", "\u4e2d", "\U0001f600", "\r", "^", "."]
+        for _ in range(R):
+            text = "".join(rng.choice(alphabet) for _ in range(rng.randint(0, 12)))
+            nl = text.count("\n")
+            line = rng.choice([0, 0, 1, nl, nl + 1, max(nl - 1, 0), rng.randint(0, 6)])
+            col = rng.choice([0, 1, 2, 3, 7, rng.randint(0, 20)])
+            out.append("render %s %d %d" % (wire.s(text), line, col))
         M = 600 if tier == "quick" else 30000
         for _ in range(M):
             toks = gen.gen_call(rng, 2)
@@ -53,4 +62,4 @@ class P(framework.Prop):
         return out
 
     def nontrivial(self, case, mobs):
-        return mobs.startswith("ERR")
+        return mobs.startswith("ERR") or case.startswith("render ")
